@@ -374,8 +374,8 @@ SPECS = {
         assumptions=["N in 0..=8 for the scripted grid"],
     ),
     "C20": dict(
-        also_custom=custom.c18_custom,
-        also_families=("arr!",),
+        also_custom=custom.both(custom.c18_custom, custom.corpus_for("C20")),
+        also_families=("arr!", "corpus"),
         engine="arrmac",
         technique="generated macro invocations with logging element expressions: evaluation-order recorder + type-level length reader + contents vs the values returned and vs the native literal; repeat forms count evaluations of x; const items evaluated by the compiler",
         level="exploration",
@@ -487,6 +487,8 @@ SPECS = {
         assumptions=["N from the lattice {0,1,2,3,7,8,16,17,32,100,256} (+255, 1024 in thorough)"],
     ),
     "C11": dict(
+        also_custom=custom.corpus_for("C11"),
+        also_families=("corpus",),
         engine="regroup",
         technique="reference-model monitor (row-major index arithmetic on identities) + address/extent checks on by-reference regrouped views + write-through; ledger for the owned transmutes; Miri/ASan",
         level="exploration",
